@@ -99,4 +99,6 @@ def run(index, tier="quick", seed=0) -> Result:
                 "ellipse is implicitly rotated by 90 degrees whenever b > a")
     else:
         raise AnalysisError("ELL-1: dependence of Ellipse.distance_to_surface on the semi-axes not recognised")
+    from ..labelrule import report as _label
+    _label(res, index, lambda cls_, fn_: fn_ == "distance_to_surface" or fn_.startswith("_get_outward"))
     return res
